@@ -43,6 +43,9 @@ func TestVerif(t *testing.T) {
 		verifRA(t, r, out, "ra4")
 	case "C14":
 		verifC14Parsed(t, r, out)
+		verifGroups(t, r, out) // the wildcard's address source is per interface, also within a `names` group
+	case "C13", "C15":
+		verifGroups(t, r, out)
 	case "C16":
 		verifC16Parsed(t, r, out)
 	default:
@@ -1373,6 +1376,31 @@ func raCase(t *testing.T, out *vfh.Out, op string, gi gIface, sys sysState, fw b
 		raImpl(t, e, impl, ifi, fw, op)
 	}
 	out.Line(e.t.String(), impl.String())
+}
+
+// verifGroups: stanzas shared by two or three interfaces through `names`, every interface with its
+// own addresses / loopback routes / hardware address: what a wildcard expands to on one interface
+// is that interface's business alone (C13, C14, C15), whatever the others of the group hold.
+func verifGroups(t *testing.T, r *vfh.Rand, out *vfh.Out) {
+	for k := vfh.N(500, 12000); k > 0; k-- {
+		gi := genIface(r, "eth0", 99, false)
+		gi.monitor, gi.advertise = false, true
+		// make sure the wildcards are there
+		gi.prefixes = append([]gPrefix{{prefix: "::/64"}}, gi.prefixes...)
+		gi.rdnss = append([]gRDNSS{{servers: []string{"::"}}}, gi.rdnss...)
+		if r.Bool() {
+			gi.routes = append([]gRoute{{prefix: "::/0"}}, gi.routes...)
+		}
+		epoch := time.Unix(1700000000+r.Range(0, 1000000), r.Range(0, 999999999))
+		names := []string{"eth0", "eth1", "eth2"}[:2+r.Intn(2)]
+		var syss []sysState
+		for range names {
+			s := genSys(r, epoch)
+			s.addrsFail, s.routesFail = false, false
+			syss = append(syss, s)
+		}
+		raGroupCase(t, out, "ra1", gi, names, syss, r.Chance(2, 3))
+	}
 }
 
 // raCorpus: fixed cases that always run first (witnesses of recorded findings, boundaries).
